@@ -51,7 +51,7 @@ def model_request(kind, p):
         a = p["algo"]
         keep = 0 if p["out"] in SUMS_ONLY_OUT else 1
         ids, vals, k = ids_of(p), p["vals"], p["k"]
-        if a in ("greedy", "roundrobin", "kk", "ckk", "snp", "rnp"):
+        if a in ("greedy", "roundrobin", "bidir", "kk", "ckk", "snp", "rnp"):
             return (a, [keep, k, ids, vals])
         if a == "multifit":
             return ("multifit", [keep, p.get("iterations", 10), k, ids, vals])
@@ -77,7 +77,7 @@ def model_request(kind, p):
         a = p["algo"]
         keep = 1 if p["keep"] else 0
         ids, vals = ids_of(p), p["vals"]
-        if a in ("greedy", "roundrobin", "kk", "ckk", "snp", "rnp"):
+        if a in ("greedy", "roundrobin", "bidir", "kk", "ckk", "snp", "rnp"):
             return (a, [keep, p["k"], ids, vals])
         if a in ("ff", "ffd", "bf", "bfd", "cover_dec", "cover_23", "cover_34"):
             return (a, [keep, p["C"], ids, vals])
